@@ -7,8 +7,12 @@ package main
 
 import (
 	"bufio"
+	"crypto/ecdsa"
+	"crypto/rand"
 	"encoding/json"
 	"fmt"
+	"github.com/tjfoc/gmsm/sm2"
+	"github.com/tjfoc/gmsm/x509"
 	"net"
 	"os"
 	"runtime"
@@ -406,8 +410,143 @@ func (f *msgFilter) onMessage(msg []byte) []*record {
 	return one(msg)
 }
 
+// a scripted GMSSL client that offers another client_version and then carries on consistently: it answers the server's
+// flight with a well-formed ClientKeyExchange (a 48-byte secret under the server's encryption certificate), sends
+// ChangeCipherSpec and an unreadable Finished, and goes away.  The server must end with an error.
+func runSelfVers(c *c15Case) (c15Obs, error) {
+	var obs c15Obs
+	_, sc, eutIsClient, err := c15Configs(c.Role, c.Ca)
+	if err != nil {
+		return obs, err
+	}
+	if eutIsClient || !strings.Contains(c.Role, "gm") {
+		obs.Skipped = "scripted peer is a GMSSL client"
+		return obs, nil
+	}
+	pc, ps := net.Pipe()
+	defer pc.Close()
+	defer ps.Close()
+	srv := gmtls.Server(ps, sc)
+	type res struct {
+		err error
+		p   interface{}
+	}
+	done := make(chan res, 1)
+	go func() {
+		var r res
+		defer func() {
+			if p := recover(); p != nil {
+				buf := make([]byte, 2048)
+				r.p = fmt.Sprint(p, " @ ", string(buf[:runtime.Stack(buf, false)]))
+				srv.Close()
+			}
+			done <- r
+		}()
+		r.err = srv.Handshake()
+		if r.err != nil {
+			srv.Close()
+		}
+	}()
+	recVers := []byte{1, 1} // record-layer version: GMSSL 1.1 until the server names another one
+	rec := func(typ byte, body []byte) []byte {
+		return append([]byte{typ, recVers[0], recVers[1], byte(len(body) >> 8), byte(len(body))}, body...)
+	}
+	go func() {
+		defer pc.Close()
+		hello := []byte{byte(c.Op.V >> 8), byte(c.Op.V)}
+		rnd := make([]byte, 32)
+		rand.Read(rnd)
+		hello = append(hello, rnd...)
+		hello = append(hello, 0, 0, 4, 0xe0, 0x13, 0xe0, 0x53, 1, 0)
+		pc.SetDeadline(time.Now().Add(8 * time.Second))
+		if _, err := pc.Write(rec(22, hsMsg(1, hello))); err != nil {
+			return
+		}
+		var buf []byte
+		var certs [][]byte
+		for {
+			r, err := readRecord(pc)
+			if err != nil || r.typ() != 22 {
+				return // alert or end of stream: the server refused, which is fine
+			}
+			buf = append(buf, r.body...)
+			doneFlight := false
+			for len(buf) >= 4 {
+				n := int(buf[1])<<16 | int(buf[2])<<8 | int(buf[3])
+				if len(buf) < 4+n {
+					break
+				}
+				m := buf[:4+n]
+				buf = buf[4+n:]
+				if m[0] == 2 && len(m) >= 6 {
+					recVers = []byte{m[4], m[5]} // a consistent peer speaks the version the server chose
+				}
+				if m[0] == 11 {
+					b := m[7:]
+					for len(b) >= 3 {
+						l := int(b[0])<<16 | int(b[1])<<8 | int(b[2])
+						if len(b) < 3+l {
+							break
+						}
+						certs = append(certs, b[3:3+l])
+						b = b[3+l:]
+					}
+				}
+				if m[0] == 14 {
+					doneFlight = true
+				}
+			}
+			if doneFlight {
+				break
+			}
+		}
+		if len(certs) < 2 {
+			return
+		}
+		ec, err := x509.ParseCertificate(certs[1])
+		if err != nil {
+			return
+		}
+		pk, ok := ec.PublicKey.(*ecdsa.PublicKey)
+		if !ok {
+			return
+		}
+		pms := make([]byte, 48)
+		rand.Read(pms)
+		pms[0], pms[1] = 1, 1
+		ct, err := sm2.EncryptAsn1(&sm2.PublicKey{Curve: pk.Curve, X: pk.X, Y: pk.Y}, pms, rand.Reader)
+		if err != nil {
+			return
+		}
+		cke := append([]byte{byte(len(ct) >> 8), byte(len(ct))}, ct...)
+		pc.Write(rec(22, hsMsg(16, cke)))
+		pc.Write(rec(20, []byte{1}))
+		pc.Write(rec(22, make([]byte, 64)))
+		time.Sleep(300 * time.Millisecond)
+	}()
+	select {
+	case r := <-done:
+		obs.EutReturned = true
+		if r.err != nil {
+			obs.EutErr = r.err.Error()
+		}
+		if r.p != nil {
+			obs.EutPanic = fmt.Sprint(r.p)
+		} else {
+			obs.EutComplete = srv.ConnectionState().HandshakeComplete
+		}
+	case <-time.After(12 * time.Second):
+		obs.Hang = true
+	}
+	obs.Applied = true
+	return obs, nil
+}
+
 func runC15(c *c15Case, baseline bool) (c15Obs, error) {
 	var obs c15Obs
+	if c.Op.Op == "selfvers" {
+		return runSelfVers(c)
+	}
 	cc, sc, eutIsClient, err := c15Configs(c.Role, c.Ca)
 	if err != nil {
 		return obs, err
